@@ -84,7 +84,7 @@ impl Property for C20 {
             },
             Phase::Random {
                 name: "random-instants",
-                cases: tier.pick(100_000, 20_000_000),
+                cases: tier.pick(2_000_000, 20_000_000),
                 strat: Arc::new(|| {
                     (prop_oneof![3 => -(1i64 << 33)..(1i64 << 34), 1 => -(1i64 << 40)..(1i64 << 40), 2 => 0i64..(1 << 32)], 0u32..1_000_000_000, proptest::sample::select(OFFSETS.to_vec()))
                         .prop_map(|(secs, nanos, tz_offset)| C20Case::Instant { secs, nanos, tz_offset })
@@ -129,6 +129,25 @@ fn inner(case: &C20Case, o: &mut Outcome) -> Result<(), (String, String)> {
             }
             if let Some(st) = system_time(*secs, *nanos) {
                 cmp_result(&format!("SystemTime({secs}s+{nanos}ns)"), conv(st), want)?;
+                // order preservation, judged with Timestamp's own ordering, against anchors
+                // that are near and far (more than 2^31 s away)
+                if want.is_ok() {
+                    if let Ok(Ok(t)) = panics::catch(|| Timestamp::try_from(st)) {
+                        for a in [0i64, 1, 86_400, (1 << 31) - 1, 1 << 31, (1 << 31) + 1, (1 << 32) - 2, (1 << 32) - 1] {
+                            let ta: Timestamp = match system_time(a, 0).map(Timestamp::try_from) {
+                                Some(Ok(x)) => x,
+                                _ => continue,
+                            };
+                            let want_ord = secs.cmp(&a);
+                            let got_ord = t.cmp(&ta);
+                            let partial = t.partial_cmp(&ta);
+                            let ops_ok = (t < ta) == (want_ord == std::cmp::Ordering::Less) && (t > ta) == (want_ord == std::cmp::Ordering::Greater) && (t == ta) == (want_ord == std::cmp::Ordering::Equal) && (t <= ta) == (want_ord != std::cmp::Ordering::Greater) && (t >= ta) == (want_ord != std::cmp::Ordering::Less);
+                            if got_ord != want_ord || partial != Some(want_ord) || !ops_ok || t.max(ta) != (if *secs >= a { t } else { ta }) {
+                                return Err(("order".into(), format!("instant {secs}s is {want_ord:?} instant {a}s but their timestamps compare {got_ord:?} (partial_cmp {partial:?})")));
+                            }
+                        }
+                    }
+                }
                 // order preservation against the next whole second
                 if let (Some(st2), Ok(a)) = (system_time(secs + 1, *nanos), want) {
                     if let Ok(Ok(b)) = conv(st2) {
